@@ -372,7 +372,7 @@ def run_schedule(case, res):
             res.count('audited_write_opens', n_w)
             res.tag('schedule:' + name)
     res.tag('n_tp=%d' % n_tp)
-    res.nontrivial('sched/%d/%s/%s' % (n_tp, feats['nr'], feats['pin']))
+    res.nontrivial('sched/%d/%s/%s' % (n_tp, feats.get('nr'), feats['pin']))
     return feats
 
 
@@ -397,7 +397,7 @@ def run_fresh(case, res):
               'two executions of the same input differ in %r' % diffs[:5],
               {'pin': feats['pin']})
     res.count('files_compared', len(outs[0]))
-    res.nontrivial('fresh/%s/%s' % (feats['nr'], feats['pin']))
+    res.nontrivial('fresh/%s/%s' % (feats.get('nr', feats.get('types')), feats['pin']))
     return feats
 
 
